@@ -279,7 +279,7 @@ def check(prop, tier, seed, a, workdir, t_start):
                             source='%s:%s' % (meta.get('file'), meta.get('line')) if meta else None, config=cfg,
                             mode=g.mode + ('+loop-contracts' if g.attrs.get('loops') == 'yes' else ''),
                             label=r.get('label'), obligations=total, discharged=ok, ast_nodes=meta.get('ast_nodes'),
-                            backend='cbmc 6.11 ' + g.solver, seconds=round(r.get('seconds', 0), 2),
+                            backend='cbmc 6.11 ' + (r.get('solver_used') or g.solver), seconds=round(r.get('seconds', 0), 2),
                             solver_seconds=round(r.get('cbmc_seconds', 0), 2), replaced=g.replace,
                             bounded=is_bounded))
         if len(samples) < 6 and r['props']:
